@@ -165,6 +165,17 @@ func (g *gen) genOpt(pi *progInfo, n *nodeInfo, used map[string]bool, env *[]Env
 			op.Min, op.Max = g.r.Intn(3)-1, g.r.Intn(3)-1
 		}
 		oi.min, oi.max = op.Min, op.Max
+		if op.Var && g.p(0.3) {
+			// the variable handed to the *Var form already holds entries (a config file was read first)
+			switch k {
+			case KStrs:
+				op.InitSS = [][]string{{"pre"}, {"p1", "p2"}, {"", "é"}}[g.r.Intn(3)]
+			case KInts:
+				op.InitIS = [][]int{{7}, {1, 2}, {-3, 0, 42}}[g.r.Intn(3)]
+			case KMap:
+				op.InitM = [][][2]string{{{"os", "linux"}}, {{"a", "1"}, {"b", "2"}, {"c", "3"}}, {{"K", "V"}, {"k", "v"}}}[g.r.Intn(3)]
+			}
+		}
 	}
 	switch k {
 	case KStr, KInt, KFlt:
